@@ -102,9 +102,16 @@ func (m *MustFlow) step(s bool, ins ssa.Instruction) bool {
 func (m *MustFlow) Before(ins ssa.Instruction) bool {
 	b := ins.Block()
 	s := m.in[b]
-	for _, i := range b.Instrs {
+	cut := -1
+	if theProg != nil {
+		cut = theProg.info(b.Parent()).cutAt[b]
+	}
+	for k, i := range b.Instrs {
 		if i == ins {
 			return s
+		}
+		if k == cut {
+			return true // everything after a call that never returns is unreachable: the fact holds vacuously
 		}
 		s = m.step(s, i)
 	}
